@@ -306,7 +306,7 @@ def variants(scs, tier):
             continue
         if s["site"] in ("srflx-own", "srflx-mux", "relay", "host-udp", "host-udpmux", "host-tcpmux"):
             out.append(dict(s, two=True))
-        if s["site"] in ("host-udpmux", "srflx-mapped", "relay"):
+        if s["site"] in ("host-udpmux", "srflx-mapped", "relay", "host-tcpmux"):
             out.append(dict(s, multi=True))
         if s["site"] == "relay":
             out.append(dict(s, site="relay-tcp"))
